@@ -133,6 +133,16 @@ func checkCmd(args []string) {
 	}
 	prop, tier := args[0], args[1]
 	t0 := time.Now()
+	// watchdog: a check never hangs. If the whole run exceeds its budget (45 min quick, 4 h thorough) it stops
+	// with exit status 2 ("the check did not finish": neither "held" nor "violated").
+	budget := 45 * time.Minute
+	if tier == "thorough" {
+		budget = 4 * time.Hour
+	}
+	time.AfterFunc(budget, func() {
+		fmt.Printf("gvc: check %s %s did not finish within %s; aborted (exit 2: no verdict)\n", prop, tier, budget)
+		os.Exit(2)
+	})
 	seed, _ := strconv.Atoi(os.Getenv("VERIF_SEED"))
 	sec := 10
 	if tier == "thorough" {
